@@ -94,6 +94,37 @@ static Bytes theta_image(Rng& r, bool T, int kind) {
 }
 
 // ------------------------------------------------------------------ registration
+// ------------------------------------------------------------------ legacy / foreign layouts the readers still accept
+// v1: byte0 preLongs=3 1 serVer=1 2 type=3 3-7 unused (no seed hash) | u32 count, f32 p | u64 theta | entries   (always ordered)
+// v2: byte0 preLongs 1|2|3, serVer=2, type=3, 3-4 unused, 5 flags, 6-7 seed hash | [u32 count, f32 p] | [u64 theta] | entries (ordered)
+// v3 forms that only other implementations write: Java single-item flag (bit 5), theta long stored although exact
+enum LK { L_V1_EMPTY, L_V1_EXACT, L_V1_EST, L_V1_EST_NOENT, L_V2_EMPTY1, L_V2_EXACT, L_V2_EST, L_V2_EMPTY3, L_V3_SINGLE_JAVA, L_V3_EXACT_THETA };
+static std::vector<uint64_t> some_hashes(Rng& r, size_t n, uint64_t below) {
+  std::set<uint64_t> s;
+  while (s.size() < n) { uint64_t h = r.next() >> 1; if (below < theta_constants::MAX_THETA) h %= below; if (h != 0) s.insert(h); }
+  return std::vector<uint64_t>(s.begin(), s.end());
+}
+static Bytes theta_legacy_image(Rng& r, bool, int kind) {
+  const uint64_t MAXT = theta_constants::MAX_THETA;
+  const uint16_t sh = update_theta_sketch::builder().build().compact().get_seed_hash();
+  const uint64_t est_theta = (MAXT / 7) * (2 + r.below(3));
+  const size_t n = 3 + r.below(30);
+  Wr w;
+  switch (kind) {
+    case L_V1_EMPTY: w.u8(3).u8(1).u8(3).u8(0).u8(0).u8(0x1e).u16(0).u32(0).f32(1.0f).u64(MAXT); break;
+    case L_V1_EXACT: { auto e = some_hashes(r, n, MAXT); w.u8(3).u8(1).u8(3).u8(0).u8(0).u8(0x1a).u16(0).u32(uint32_t(e.size())).f32(1.0f).u64(MAXT); for (auto x : e) w.u64(x); break; }
+    case L_V1_EST: { auto e = some_hashes(r, n, est_theta); w.u8(3).u8(1).u8(3).u8(0).u8(0).u8(0x1a).u16(0).u32(uint32_t(e.size())).f32(1.0f).u64(est_theta); for (auto x : e) w.u64(x); break; }
+    case L_V1_EST_NOENT: w.u8(3).u8(1).u8(3).u8(0).u8(0).u8(0x1a).u16(0).u32(0).f32(0.5f).u64(est_theta); break;
+    case L_V2_EMPTY1: w.u8(1).u8(2).u8(3).u8(0).u8(0).u8(0x1e).u16(sh); break;
+    case L_V2_EXACT: { auto e = some_hashes(r, n, MAXT); w.u8(2).u8(2).u8(3).u8(0).u8(0).u8(0x1a).u16(sh).u32(uint32_t(e.size())).f32(1.0f); for (auto x : e) w.u64(x); break; }
+    case L_V2_EST: { auto e = some_hashes(r, n, est_theta); w.u8(3).u8(2).u8(3).u8(0).u8(0).u8(0x1a).u16(sh).u32(uint32_t(e.size())).f32(1.0f).u64(est_theta); for (auto x : e) w.u64(x); break; }
+    case L_V2_EMPTY3: w.u8(3).u8(2).u8(3).u8(0).u8(0).u8(0x1e).u16(sh).u32(0).f32(1.0f).u64(MAXT); break;
+    case L_V3_SINGLE_JAVA: { auto e = some_hashes(r, 1, MAXT); w.u8(1).u8(3).u8(3).u16(0).u8(0x3a).u16(sh).u64(e[0]); break; }
+    default: { auto e = some_hashes(r, n, MAXT); w.u8(3).u8(3).u8(3).u16(0).u8(0x1a).u16(sh).u32(uint32_t(e.size())).u32(0).u64(MAXT); for (auto x : e) w.u64(x); break; }
+  }
+  return w.b;
+}
+
 std::vector<Target> targets() {
   std::vector<Target> t;
   struct { const char* name; int k; } tks[] = {{"empty", T_EMPTY}, {"empty_p", T_EMPTY_P}, {"single", T_SINGLE}, {"exact", T_EXACT}, {"exact_unordered", T_EXACT_UNORD}, {"bigcfg_few", T_BIG}, {"bigcfg_few_compressed", T_BIG_V4},
@@ -101,6 +132,16 @@ std::vector<Target> targets() {
   for (auto& k : tks) {
     const int kk = k.k;
     BuildFn b = [kk](Rng& r, bool T) { return theta_image(r, T, kk); };
+    t.push_back({"theta", k.name, "bytes", b, bytes_path(theta_bytes)});
+    t.push_back({"theta", k.name, "stream", b, stream_path(theta_stream)});
+    t.push_back({"theta", k.name, "wrap", b, bytes_path(theta_wrap)});
+  }
+  struct { const char* name; int k; } lks[] = {{"legacy_v1_empty", L_V1_EMPTY}, {"legacy_v1_exact", L_V1_EXACT}, {"legacy_v1_estimation", L_V1_EST},
+    {"legacy_v1_estimation_no_entries", L_V1_EST_NOENT}, {"legacy_v2_empty_1_long", L_V2_EMPTY1}, {"legacy_v2_exact", L_V2_EXACT}, {"legacy_v2_estimation", L_V2_EST},
+    {"legacy_v2_empty_3_longs", L_V2_EMPTY3}, {"legacy_v3_single_item_java_flag", L_V3_SINGLE_JAVA}, {"legacy_v3_exact_with_theta_long", L_V3_EXACT_THETA}};
+  for (auto& k : lks) {
+    const int kk = k.k;
+    BuildFn b = [kk](Rng& r, bool T) { return theta_legacy_image(r, T, kk); };
     t.push_back({"theta", k.name, "bytes", b, bytes_path(theta_bytes)});
     t.push_back({"theta", k.name, "stream", b, stream_path(theta_stream)});
     t.push_back({"theta", k.name, "wrap", b, bytes_path(theta_wrap)});
